@@ -235,8 +235,10 @@ def gen_ops(cfg, rng, tier, stats, light=False):
         ops.append((f"log {float(p).hex()}", None))
         stats["log_ops"] += 1
     lmax = int(690.0 / math.log(b)) >> cfg.shift
+    # |l << shift| * ln b <= 690: pow() stays finite and non-zero, so the harness can recover the exponent
     ls = [0, 1, -1, lmax, -lmax, -6931 >> cfg.shift] + [rng.range(-lmax, lmax) for _ in range(20 if light else 100 if tier == "quick" else 5000)]
     for l in ls:
+        l = max(-lmax, min(lmax, l))
         ops.append((f"exp {l}", None))
         stats["exp_ops"] += 1
     return ops
@@ -361,6 +363,11 @@ def run_case(c, binp, cfg, ops, metas=None, stats=None, _depth=0):
                                  "impl_violates": False})
         elif w[0] == "exp":
             f, g = hl.split(), ml.split()
+            if len(f) == 3 and f[1] == "oor":
+                # pow() under/overflowed: the exponent cannot be recovered from the result; outside the modelled range
+                if stats is not None:
+                    stats["exp_out_of_range"] = stats.get("exp_out_of_range", 0) + 1
+                continue
             if f[0] != "e" or g[0] != "e" or f[1] != g[1] or f[2] != "1":
                 problems.append({"kind": "exp", "op": op, "impl": hl, "model": ml,
                                  "reason": "exponent handed to pow() differs from l << shift", "impl_violates": False})
@@ -569,6 +576,7 @@ def check(c):
         "ops": nops, "corpus_cases": ncorp,
         "op_mix": {k: stats[k] for k in ("full_sweeps", "crossing_sweeps", "edge_adds", "random_adds", "log_ops", "exp_ops")},
         "log_value_classes": stats["log_classes"],
+        "exp_results_out_of_pow_range_not_judged": stats.get("exp_out_of_range", 0),
         "dynamic_configurations": dyn_info,
         "model_branches_hit": branches,
         "model_branches_never_hit": never,
